@@ -363,7 +363,27 @@ def _integrator(run, ci):
     # every sample reaches the source-change test: a sample skipped before it (continue / break) leaves the previous source 'current', so the
     # length of the cells that follow -- which belong to no source or to another one -- is credited to it
     chg_ = [s for s in lp.body if isinstance(s, ast.If) and cur in norm(s.test) and ISRC in norm(s.test)]
-    for j_ in [x for x in ast.walk(lp) if isinstance(x, (ast.Continue, ast.Break))]:
+    def _own_jumps(loop):
+        # continue / break statements that act on this loop (not on a loop nested in it)
+        out_ = []
+
+        def go_(stmts):
+            for s_ in stmts:
+                if isinstance(s_, (ast.Continue, ast.Break)):
+                    out_.append(s_)
+                elif isinstance(s_, (ast.For, ast.While)):
+                    continue
+                else:
+                    for f_ in ('body', 'orelse', 'finalbody'):
+                        b_ = getattr(s_, f_, None)
+                        if isinstance(b_, list):
+                            go_(b_)
+                    if isinstance(s_, ast.Try):
+                        for h_ in s_.handlers:
+                            go_(h_.body)
+        go_(loop.body)
+        return out_
+    for j_ in _own_jumps(lp):
         top_ = next((s for s in lp.body if any(y is j_ for y in ast.walk(s))), None)
         if top_ is not None and chg_ and lp.body.index(top_) < lp.body.index(chg_[0]):
             run.subject('C10-R2')
